@@ -4,7 +4,7 @@ From VG Require Import Corr.CorrTimeout Corr.CorrLeaf Corr.CorrRouter Corr.CorrR
 Open Scope Z_scope.
 
 Definition runners : list runner := [run_timeout; run_leaf; run_router; run_reader; run_serve; run_response; run_get; run_config; run_resolver].
-Definition monitors : list monitor_t := [mon_timeout; mon_leaf; mon_router; mon_response_data; mon_dispatch; mon_reader; mon_limits; mon_segments; mon_reader_meta; mon_get; mon_dual; mon_rest; mon_pool; mon_config].
+Definition monitors : list monitor_t := [mon_timeout; mon_leaf; mon_router; mon_response_data; mon_dispatch; mon_reader; mon_limits; mon_segments; mon_reader_meta; mon_get; mon_dual; mon_hang; mon_rest; mon_pool; mon_config].
 
 Definition run (suite : bytes) (i : V) : option V := first_some (map (fun r => r suite i) runners).
 Definition monitor (suite : bytes) (i o : V) : option bool := first_some (map (fun m => m suite i o) monitors).
